@@ -68,7 +68,16 @@ func randomTmpl(rng *rand.Rand, cfg Cfg) Tmpl {
 	anyDead := len(cfg.Dead) > 0
 	for {
 		t := Tmpl{Cmp: "EQ", Pk: rng.Intn(2) == 0}
-		switch rng.Intn(10) {
+		op := rng.Intn(10)
+		if cfg.Tmo {
+			// a world whose request timeout fires: writes only (the write stream outlives a timed-out
+			// request; a read is a single RPC that the timeout cancels)
+			op = rng.Intn(5)
+			if op == 4 && rng.Intn(2) == 0 {
+				op = 0
+			}
+		}
+		switch op {
 		case 0, 1, 2:
 			t.Op, t.Size = "put", 8+rng.Intn(30)
 		case 3:
@@ -105,7 +114,15 @@ func randomTmpl(rng *rand.Rand, cfg Cfg) Tmpl {
 func driveOne(base string, seed int64) ([]TLine, error) {
 	rng := rand.New(rand.NewSource(seed))
 	cfg, lg := randomCfg(rng)
-	w, err := newWorld(base, cfg, lg, seed)
+	// one walk in four runs with a request timeout short enough to fire whenever the scheduler leaves a
+	// write request unanswered for a while (the leader is slow but alive, the write stream stays open)
+	var tmo time.Duration
+	if rng.Intn(4) == 0 {
+		cfg.Tmo = true
+		cfg.Dead = []int{}
+		tmo = []time.Duration{50 * time.Millisecond, 80 * time.Millisecond, 120 * time.Millisecond}[rng.Intn(3)]
+	}
+	w, err := newWorld(base, cfg, lg, seed, tmo)
 	if err != nil {
 		return nil, err
 	}
@@ -166,12 +183,19 @@ func driveOne(base string, seed int64) ([]TLine, error) {
 		canIssue := issued < maxCalls && outstanding < capOut
 		r := rng.Intn(10)
 		switch {
+		case cfg.Tmo && len(pend) > 0 && rng.Intn(6) == 0:
+			// the leaders stay silent for about a request timeout: whatever is in flight may time out on the
+			// client (wait for the next event, then go on; what really happened is in the trace)
+			w.waitUntil(tmo+5*time.Millisecond, func() bool { return len(w.trace) > nlines })
 		case canIssue && r < 4:
 			w.issue(randomTmpl(rng, cfg))
 		case len(pend) > 0 && r < 7:
 			k := pend[rng.Intn(len(pend))]
 			mode, n := ansOK, 0
-			if nfail < maxFail && rng.Intn(4) == 0 {
+			if cfg.Tmo {
+				// only answers: ending a write stream while a request may be on its way to it is not
+				// something the recording could order (replayed behaviours cover stream failures)
+			} else if nfail < maxFail && rng.Intn(4) == 0 {
 				mode = ansFail
 				nfail++
 			} else if nbreak < maxBreak && rng.Intn(4) == 0 {
